@@ -1234,3 +1234,68 @@ func (r *Run) c16HandOverCounts(par *ssa.Function, gos []*ssa.Go) {
 		})
 	}
 }
+
+
+// c16UnpublishedFresh: the field store e writes into an object allocated in fn itself that no call received
+// before the store (so no other goroutine can hold it yet).
+func c16UnpublishedFresh(p *Prog, fn *ssa.Function, e Effect) bool {
+	fa, ok := e.Addr.(*ssa.FieldAddr)
+	if !ok {
+		return false
+	}
+	base := fa.X
+	for {
+		if ct, isCT := base.(*ssa.ChangeType); isCT {
+			base = ct.X
+			continue
+		}
+		break
+	}
+	al, isAlloc := base.(*ssa.Alloc)
+	if !isAlloc {
+		return false
+	}
+	st, _ := e.Instr.(*ssa.Store)
+	if st == nil {
+		return false
+	}
+	for _, ref := range *al.Referrers() {
+		switch x := ref.(type) {
+		case *ssa.FieldAddr:
+		case *ssa.Return:
+		case ssa.CallInstruction:
+			// handed to a call: only harmless when that happens after the store on every path
+			in := x.(ssa.Instruction)
+			if in.Block() == st.Block() {
+				for _, y := range st.Block().Instrs {
+					if y == in {
+						return false
+					}
+					if y == ssa.Instruction(st) {
+						break
+					}
+				}
+			} else if !st.Block().Dominates(in.Block()) {
+				return false
+			}
+		case *ssa.Store:
+			if x.Val == ssa.Value(al) {
+				if x.Block() == st.Block() {
+					for _, y := range st.Block().Instrs {
+						if y == ssa.Instruction(x) {
+							return false
+						}
+						if y == ssa.Instruction(st) {
+							break
+						}
+					}
+				} else if !st.Block().Dominates(x.Block()) {
+					return false
+				}
+			}
+		case *ssa.MakeInterface, *ssa.Phi, *ssa.MakeClosure:
+			return false
+		}
+	}
+	return true
+}
